@@ -33,6 +33,12 @@ case format
                           "oc_busy" (data arrives while on_connection runs), "halfclose" (FIN right behind the data)}
                 "proto": "copy" (StreamProtocol / recv) | "buffered" (BufferedStreamProtocol / recv_into)      (top level)
   unit case   : {"kind": "unit", "op": "split"|"cls"|"filter", "cls": …, "filter": …, "tree": tree}
+  stall case  : {"kind": "stall", "end": h_raise|h_pre|h_return|oc_raise|od_raise|bad|h_timeout|h_close|peer_rst|peer_fin (how the
+                 client task of client A ends), "reading": bool (A reads what it is sent / never reads: the >= 128 KiB the server
+                 sent stay unacknowledged), "tls": bool, "tree": tree, "tree2": tree (on_disconnection, od_raise), "kib": n,
+                 "proto", "eager"}     responsiveness of the server's event loop while A's task ends (vlib/c17_stall.py):
+                 a healthy client B goes on exchanging requests, a 10 ms loop heartbeat and the close() of every accepted
+                 socket are timed (threshold 1.0 s, confirmed by a re-run); oracle only
 """
 from __future__ import annotations
 
@@ -41,6 +47,7 @@ from typing import Any, Iterator
 
 from vlib import core
 from vlib import c17_run as R
+from vlib import c17_stall as ST
 from vlib import c17_unit as U
 
 ID = "C17"
@@ -87,13 +94,16 @@ ASSUMPTIONS = [
     "errno-dependent logging decisions (NOT_CONNECTED errnos) are not modelled: injected OSErrors carry no errno",
 ]
 RULE = (
-    "case = server kind (tcp, tcp-tls, udp) x fault (exception tree x hook position | real set-up fault) x schedule (H2 held "
+    "case = [isolation] server kind (tcp, tcp-tls, udp) x fault (exception tree x hook position | real set-up fault) x schedule (H2 held "
     "during the fault or not, H1 in its first/second generator, on_connection as coroutine or generator, k-th request, "
     "generator index, 0-3 datagrams of the faulty UDP address queued behind the failing one, default / eager task factory) "
     "| malformed input sent by the faulty client itself (how it is cut into segments x what the handler "
     "does with the parse error x number of valid requests before x StreamProtocol/BufferedStreamProtocol x while "
     "on_connection runs / yield with a timeout / half-close right behind; UDP: malformed datagram alone or queued behind a "
-    "valid one); quick = every Exception leaf class x every position of the generated nesting map once, + groups "
+    "valid one) | [responsiveness] how the task of client A ends (handle raises after / before its first yield, returns "
+    "early, on_connection raises, on_disconnection raises too, malformed request, yield time-out, handler closes the client, "
+    "peer resets / closes) x peer reading / not reading the >= 128 KiB the server sent x plain / TLS x exception class x "
+    "packet size x protocol x task factory; quick = every Exception leaf class x every position of the generated nesting map once, + groups "
     "(flat, nested, mixed with ClientClosedError/ConnectionError, with a non-Exception leaf) + real set-up faults + unit cases "
     "(each filter alone, BaseExceptionGroup.split) on generated trees; non-trivial = a fault actually raised (or a unit "
     "case), keyed by kind/position/tree shape/leaf family; distinct by full case digest"
@@ -113,9 +123,17 @@ def translate() -> None:
 
 def tie_problems(stats: core.Stats) -> list[str]:
     from translate import iso_tables
+    global _bulk
+    # (called once, between the bulk evaluation and the verdict phase.  core also calls known_key() at the end of every
+    # evaluated batch: flipping the flag there switched the circuit breakers off from the second batch on)
+    _bulk = False
     out = []
     if iso_tables.last_error:
         out.append("translator: the source no longer has the shape the nesting map expects: " + iso_tables.last_error)
+    if INFRA and not stats.oracle_violations:
+        # a stall of the event loop that did not show up again when the same case was re-run, or a kernel that did not take
+        # the big packet: an infrastructure problem, never a verdict (exit 2) — unless real violations were found as well
+        raise core.InfraError(INFRA[0][:400])
     return out
 
 
@@ -138,14 +156,26 @@ def oc_for(pos: str, want: str) -> str:
 
 MAX_SERVER_VIOLATIONS = 10      # circuit breaker: with a broken server every further case fails the same (slow) way
 _server_violations = 0
-_bulk = True                    # False once the verdict phase (known_key / shrinking / replay) has begun: never skip there
+_bulk = True                    # False once the verdict phase (shrinking / replay files) has begun: never skip there
 SKIPPED = "skipped: enough oracle violations already"
+
+
+MAX_STALL_VIOLATIONS = 3        # (every stalling case costs two stalls of several seconds)
+_stall_violations = 0
+INFRA: list[str] = []
 
 
 def run_real(case: dict) -> list[str]:
     if case["kind"] == "unit":
         return U.run_unit(case)
-    global _server_violations
+    global _server_violations, _stall_violations
+    if case["kind"] == "stall":
+        if _bulk and _stall_violations >= MAX_STALL_VIOLATIONS:
+            return [SKIPPED]
+        lines = ST.run_case(case)
+        if _bulk and _oracle(case, lines):
+            _stall_violations += 1
+        return lines
     if _bulk and _server_violations >= MAX_SERVER_VIOLATIONS:
         return [SKIPPED]
     lines = R.run_case(case)
@@ -191,6 +221,8 @@ def _eff_tree(case: dict) -> Any:
 def model_input(case: dict, real: list[str]):
     if real == [SKIPPED]:
         return None
+    if case["kind"] == "stall":
+        return None         # responsiveness: oracle only
     if case["kind"] == "unit":
         toks = " ".join(R.tree_tokens(case["tree"]))
         if case["op"] == "split":
@@ -250,6 +282,8 @@ def promised(case: dict) -> bool:
     """does the property promise anything for this case (every leaf an Exception)?"""
     if case["kind"] == "unit":
         return R.is_exception_tree(case["tree"])
+    if case["kind"] == "stall":
+        return all(R.is_exception_tree(case[k]) for k in ("tree", "tree2") if case.get(k))
     f = case.get("fault")
     if not f or f.get("tree") is None or isinstance(f["tree"], str) and f["tree"].startswith("@"):
         return True
@@ -271,6 +305,8 @@ def _oracle(case: dict, real: list[str]) -> str | None:
         if case["op"] == "filter" and _get(real, "out ") != "swallowed":
             return f"filter {case['filter']} lets an Exception tree escape: {_get(real, 'out ')}"
         return None
+    if case["kind"] == "stall":
+        return _oracle_stall(case, real)
     base = baseline(case)
     f = case.get("fault")
     if _get(real, "serving ") != "1":
@@ -326,6 +362,59 @@ def _oracle(case: dict, real: list[str]) -> str | None:
     ends = sum(1 for h in hooks if h.startswith("handle:closed"))
     if starts != ends:
         return f"{starts} handle generators started, {ends} closed"
+    return None
+
+
+def _oracle_stall(case: dict, real: list[str]) -> str | None:
+    """"other clients are served unaffected": while client A's task ends (any way) the server goes on serving B at once —
+    the event loop is never blocked for a second or more —, B and a new client are answered exactly, A's connection is
+    closed at both ends, on_disconnection ran once iff on_connection completed, the server is still serving"""
+    if real and real[0].startswith("infra"):
+        INFRA.append("C17 " + real[0])
+        return None
+    g = lambda p: _get(real, p)  # noqa: E731
+    what = (f"client A's task ended ({case['end']}" + (f" {R.tree_text(case['tree'])}" if case["end"] in ST.RAISING_ENDS and case.get("tree") else "")
+            + f", peer {'reading' if case.get('reading') else 'NOT reading'}, {'TLS' if case.get('tls') else 'plain TCP'})")
+    lg, outq = g("linger-at-close "), g("outq-at-close ")
+    if g("hb-gap ") == "long" or g("close-block ") == "long":
+        return (f"the server's event loop was blocked for {ST.LONG} s or more (seen twice: first run and re-run of the same case) while {what}: "
+                f"10 ms heartbeat gap {g('hb-gap ')}, socket.close() of an accepted socket in the loop thread {g('close-block ')}; "
+                f"A's socket was closed with SO_LINGER {lg}, unsent data {outq} — every other client, the accept loop and all timers were frozen")
+    if lg and lg.startswith("on:") and lg[3:].isdigit() and int(lg[3:]) > 0 and outq == "pending" and g("closed-in-loop ") == "1" \
+            and not case.get("reading"):
+        return (f"A's socket, holding data the peer does not acknowledge, was closed inside the event-loop thread with SO_LINGER on and a "
+                f"{lg[3:]} s time-out: close(2) blocks the loop (all other clients) for that long while {what}")
+    to = g("harness-timeouts ")
+    if g("serving ") != "1":
+        return f"the server is no longer serving after {what}"
+    if g("servetask ") != "running":
+        return f"serve_forever() ended after {what}"
+    if g("serve-end ") != "clean":
+        return "serve_forever() raised at shutdown: " + str(g("serve-end "))
+    if g("b ") != "ok":
+        return f"healthy client B was not served as if nothing had happened while {what}: {g('b ')!r}" + (f" (bounds expired: {to})" if to else "")
+    if g("new ") != "ok":
+        return f"a new client was not served after {what}: {g('new ')!r}"
+    if g("healthy-hooks ") != "ok":
+        return "hooks of a healthy client disturbed: " + str(g("healthy-hooks "))
+    if g("fault-reached ") != "1":
+        if g("big-sent ") != "1":
+            INFRA.append(f"C17 stall case: the kernel did not take the {case.get('kib', 128)} KiB packet (send queue too small?)")
+            return None
+        return f"client A never reached the point where its task ends ({case['end']})"
+    if to is not None:
+        return f"no answer within the (retried, 12 s) bound while the server is alive: {to}"
+    if g("a-server-socket ") != "closed":
+        return f"the server kept client A's socket open after {what}"
+    if g("a-end ") != "closed":
+        return f"client A's connection was not closed after {what}"
+    hooks = (g("a-hooks ") or "-").split()
+    n_od = hooks.count("od")
+    if "oc:done" in hooks:
+        if n_od != 1:
+            return f"on_connection completed but on_disconnection ran {n_od} times ({case['end']})"
+    elif n_od != 0:
+        return f"on_disconnection ran {n_od} times although on_connection did not complete ({case['end']})"
     return None
 
 
@@ -387,6 +476,13 @@ def nontrivial(case: dict, real: list[str]) -> str | None:
         return None
     if case["kind"] == "unit":
         return f"unit/{case['op']}/{case.get('filter', case.get('cls', '-'))}/{_shape(case['tree'])}"
+    if case["kind"] == "stall":
+        if _get(real, "fault-reached ") != "1":
+            return None
+        return (f"stall{'+tls' if case.get('tls') else ''}{'+eager' if case.get('eager') else ''}/{case['end']}/"
+                f"{'reading' if case.get('reading') else 'notreading'}/{case.get('proto', 'copy')}/"
+                + (f"{_shape(case['tree'])}/{_family(case['tree'])}" if case["end"] in ST.RAISING_ENDS and case.get("tree") else "-")
+                + f"/outq={_get(real, 'outq-at-close ')}")
     f = case.get("fault")
     if not f:
         return None
@@ -403,10 +499,13 @@ def nontrivial(case: dict, real: list[str]) -> str | None:
 
 
 def known_key(case: dict, real: list[str], why: str) -> str:
-    global _bulk
-    _bulk = False
     if case["kind"] == "unit":
         return f"unit,{case['op']},{case.get('filter', '-')}"
+    if case["kind"] == "stall":
+        # (one replay per clause: every stalling case costs seconds)
+        clause = "loop-blocked" if "event loop was blocked" in why else "linger-timeout" if "SO_LINGER on" in why else \
+            "-".join(why.replace("(", " ").split()[:5])
+        return f"stall,tls={int(bool(case.get('tls')))},{clause}"
     f = case.get("fault") or {}
     if case.get("eager"):
         case = {**case, "kind": case["kind"] + "+eager"}
@@ -425,6 +524,13 @@ def shrink(case: dict) -> Iterator[dict]:
             if len(t) > 2:
                 for i in range(1, len(t)):
                     yield {**case, "tree": t[:i] + t[i + 1:]}
+        return
+    if case["kind"] == "stall":
+        # (few candidates: a stalling case takes seconds, twice)
+        if case.get("eager") or case.get("proto", "copy") != "copy" or int(case.get("kib", 128)) != 128:
+            yield {k: v for k, v in case.items() if k not in ("eager", "proto", "kib")}
+        if not isinstance(case.get("tree"), str) and case.get("tree"):
+            yield {**case, "tree": R.leaves(case["tree"])[0]}
         return
     f = case.get("fault")
     if not f:
@@ -578,6 +684,52 @@ def eager_block(rng: random.Random) -> Iterator[dict]:
     yield server_case("tcp-tls", "tls_hs", leaf(), rng, sched="mid", eager=True)
 
 
+def stall_case(end: str, reading: bool, tls: bool, rng: random.Random, **kw: Any) -> dict:
+    """responsiveness of the loop while client A's task ends (vlib/c17_stall.py)"""
+    c: dict = {"kind": "stall", "end": end, "reading": bool(reading), "tls": bool(tls)}
+    if end in ST.RAISING_ENDS:
+        c["tree"] = kw.get("tree") or rng.choice(R.EXC_LEAVES)
+    if end == "od_raise":
+        c["tree2"] = kw.get("tree2") or rng.choice(R.EXC_LEAVES)
+    kib = kw.get("kib") or rng.choice([128, 128, 160, 192, 256])
+    if kib != 128:
+        c["kib"] = kib
+    if kw.get("proto", rng.choice(["copy", "copy", "buffered"])) == "buffered":
+        c["proto"] = "buffered"
+    if kw.get("eager", rng.random() < 0.15):
+        c["eager"] = True
+    return c
+
+
+def stall_smoke(rng: random.Random) -> Iterator[dict]:
+    yield stall_case("h_raise", False, False, rng, tree="RuntimeError", kib=128, proto="copy", eager=False)
+    yield stall_case("oc_raise", False, False, rng, tree="ValueError", kib=128, proto="copy", eager=False)
+    yield stall_case("bad", False, False, rng, kib=128, proto="buffered", eager=False)
+    yield stall_case("h_raise", True, False, rng, tree="OSError", kib=256, proto="copy", eager=False)
+    yield stall_case("od_raise", False, True, rng, tree="UserError", tree2="ConnectionResetError", kib=128, proto="copy", eager=False)
+
+
+def stall_matrix(rng: random.Random, thorough: bool) -> Iterator[dict]:
+    # every way a client task can end x peer reading / not reading x plain / TLS
+    for tls in (False, True):
+        for reading in (False, True):
+            for end in ST.ENDS:
+                if tls and not reading and not thorough and end not in ("h_raise", "oc_raise", "bad", "h_close", "peer_rst", "od_raise"):
+                    continue        # (TLS, peer not reading: the server waits ssl_shutdown_timeout for the close_notify — 0.2 s each)
+                yield stall_case(end, reading, tls, rng)
+    # every exception class at every raising position, peer not reading, plain TCP; groups
+    for end in ST.RAISING_ENDS:
+        leaves = list(R.EXC_LEAVES)
+        rng.shuffle(leaves)
+        for leaf in leaves:
+            yield stall_case(end, False, False, rng, tree=leaf, **({"tree2": rng.choice(leaves)} if end == "od_raise" else {}))
+        for t in group_trees(rng, R.EXC_LEAVES)[: (6 if thorough else 3)]:
+            yield stall_case(end, False, False, rng, tree=t)
+    for _ in range(60 if thorough else 10):
+        yield stall_case(rng.choice(ST.ENDS), rng.random() < 0.4, rng.random() < 0.25, rng, kib=rng.choice([128, 256, 384, 512]),
+                         eager=rng.random() < 0.5)
+
+
 def unit_cases(rng: random.Random, n: int) -> Iterator[dict]:
     pool_all = R.EXC_LEAVES + R.BASE_LEAVES
     for i in range(n):
@@ -615,6 +767,9 @@ def generate(rng: random.Random, tier: str, boost: int) -> Iterator[dict]:
     # … and the same servers on an eager-task loop: UDP datagrams of F queued behind the one whose handling fails (the
     # task-done hook re-spawns the client coroutine: its first step runs inside start_soon()), every UDP position, TCP / TLS
     yield from eager_block(rng)
+    # … and the responsiveness of the loop while one client's task ends with unacknowledged data in its send queue
+    srng = core.sub_rng(core.seed_from_env(), ID, tier, "stall", boost)       # (the stream of the older generators is unchanged)
+    yield from stall_smoke(srng)
     # every leaf class alone through every unit filter (exhaustive over the alphabet)
     for leaf in R.EXC_LEAVES + R.BASE_LEAVES:
         for flt in UNIT_FILTERS:
@@ -625,6 +780,7 @@ def generate(rng: random.Random, tier: str, boost: int) -> Iterator[dict]:
     yield from unit_cases(rng, (12000 if thorough else 1500) * boost)
     rounds = (6 if thorough else 1) * boost
     for rnd in range(rounds):
+        yield from stall_matrix(srng, thorough)
         yield from bad_matrix(rng)
         for kind in ("tcp", "udp", "tcp-tls"):
             # the full class x position matrix
